@@ -6,14 +6,14 @@ HOME = os.path.dirname(os.path.dirname(os.path.abspath(__file__)))
 CLAIMED = {
  "C04": dict(engine="E-sched", level="exploration", design_ref="DESIGN.md §4 E-sched / C04",
    technique="deterministic simulation: seeded schedules/iteration orders, simulated target with injected plan requests and step cut-offs, online invariants on the callback history",
-   text="Seeded search over acyclic graphs x iteration orders of every dependency/sink set x guard valuations x dynamic plan requests x step cut-offs, against the real ExecutionController (directly and inside NumpyInterpreter.run/run_single_step); invariants V1-V6 (once, deps-first, requested-first, complete, bounded, fresh plan after cut-off) checked at every callback. Evidence, not proof: sampled schedules. Histories also contain steps the caller abandons at an event (generator closed mid-step, wired modes included), requests handed over as one-shot iterators, phases that reuse statement ids, and phase objects made by copy() from a draft phase; every fifth run drives builder programs on the real interpreter with real guards (guard faithfulness).",
+   text="Seeded search over acyclic graphs x iteration orders of every dependency/sink set x guard valuations x dynamic plan requests x step cut-offs, against the real ExecutionController (directly and inside NumpyInterpreter.run/run_single_step); invariants V1-V6 (once, deps-first, requested-first, complete, bounded, fresh plan after cut-off) checked at every callback. Evidence, not proof: sampled schedules. Histories also contain steps the caller abandons at an event (generator closed mid-step, wired modes included), requests handed over as one-shot iterators, phases that reuse statement ids, and phase objects made by copy() from a draft phase; every fifth run drives builder programs on the real interpreter with real guards (guard faithfulness). Later additions: a nested stepper advanced inside callbacks of the observed step, errors of eight classes inside statements, guard values that are numpy booleans or numbers, a stale suspended step closed during a later one, two target objects for one controller, and (20% of runs) the controller taken from dagrt.language compiled without assert statements (python -O).",
    note="Trusts: my Monitor's reading of the property (requested statements and their unvisited dependencies run before anything else); graphs are well-formed (acyclic, closed). Guards/requests are simulated, expressions are not evaluated here (C01/C02 do that)."),
 }
 
 CLAIMED.update({
  "C01": dict(engine="E-step", level="exploration", design_ref="DESIGN.md §4 E-step / C01, Appendix A",
    technique="deterministic simulation: seeded caller histories over seeded builder programs, interpreter schedules owned by the simulator, lock-step refinement of two real steppers against an executable reference model",
-   text="Seeded search over builder programs x initial states x caller histories (run(max_steps), run(t_end), run_single_step sequences, continuing after failed/switched/raised steps); the interpreter additionally runs under tape-chosen dependency/sink iteration orders re-drawn every step. Every event and the persistent store/next_phase after every step of NumpyInterpreter and of the exec()'d generated class are compared with a reference stepper that executes the builder calls in written order. Sampled, not exhaustive. Histories also create further stepper instances of the same description (own function tables, own state) between caller operations, sometimes hand the interpreter the very description objects the generator has just worked on, and register user functions under plain names that the program also uses for variables.",
+   text="Seeded search over builder programs x initial states x caller histories (run(max_steps), run(t_end), run_single_step sequences, continuing after failed/switched/raised steps); the interpreter additionally runs under tape-chosen dependency/sink iteration orders re-drawn every step. Every event and the persistent store/next_phase after every step of NumpyInterpreter and of the exec()'d generated class are compared with a reference stepper that executes the builder calls in written order. Sampled, not exhaustive. Histories also create further stepper instances of the same description (own function tables, own state) between caller operations, sometimes hand the interpreter the very description objects the generator has just worked on, and register user functions under plain names that the program also uses for variables. Later additions: attribute lookups, tuple-valued and list-valued call results, tuples as call arguments, triangular loop nests, a mirrored second loop after an array fill, a loop variable reused as an ordinary variable, phases taken by as_execution_phase() from a builder that then receives more calls, a generator object that made another description's class before (the new description assembled at the dead one's address).",
    note="Trusts the reference stepper (~200 lines, no dagrt/pymbolic code) and CPython/numpy arithmetic. Programs obey the well-definedness rules of DESIGN.md §3.4; ill-defined runs are discarded and counted. Values are compared exactly; a 1e-9 tolerance is used only after the reference observes Python's compensated sum() and naive addition disagree."),
  "C02": dict(engine="E-sched", level="exploration", design_ref="DESIGN.md §4 E-sched / C02",
    technique="deterministic simulation: simulator-owned scheduler executes sampled and race-directed linear extensions of the recorded dependency graph through the real interpreter callbacks on a recording store; history equivalence with written order",
@@ -24,7 +24,7 @@ CLAIMED.update({
 CLAIMED.update({
  "C11": dict(engine="E-step", level="fault_enumeration", design_ref="DESIGN.md §4 E-step / C11",
    technique="deterministic simulation with fault injection: the k-th user-function call of a step raises; quick tier draws k, thorough tier enumerates every call index of the step; invariants after the fault and resumption equivalence against a fresh stepper",
-   text="For seeded programs with user-function calls (every call site individually named) and seeded pre-histories, the k-th call of a step raises a drawn exception (21 classes), separately in NumpyInterpreter and in the generated class. Checked: the very exception object reaches the caller (X1); no per-step name survives (X2); every persistent variable holds its pre-step value or a value the written program's fault-free step assigns in a statement that does not depend on the failing statement (X3); variables all of whose writes depend on the failing call are unchanged (X4); the faulted stepper and a fresh stepper installed with the same state and phase behave identically over 1..3 further operations, including a second fault (X5). Thorough tier enumerates all call indices of the faulted step (<=24). Fault classes: 21 exception classes including KeyboardInterrupt and a BaseException subclass; the faulted operation is run_single_step, run(max_steps=1) or run(max_steps=2..3) (so the fault may follow completed steps of the same call); in 30% of runs the resumed stepper and its fresh twin are alive together and advanced alternately, one event each.",
+   text="For seeded programs with user-function calls (every call site individually named) and seeded pre-histories, the k-th call of a step raises a drawn exception (21 classes), separately in NumpyInterpreter and in the generated class. Checked: the very exception object reaches the caller (X1); no per-step name survives (X2); every persistent variable holds its pre-step value or a value the written program's fault-free step assigns in a statement that does not depend on the failing statement (X3); variables all of whose writes depend on the failing call are unchanged (X4); the faulted stepper and a fresh stepper installed with the same state and phase behave identically over 1..3 further operations, including a second fault (X5). Thorough tier enumerates all call indices of the faulted step (<=24). Fault classes: 21 exception classes including KeyboardInterrupt and a BaseException subclass; the faulted operation is run_single_step, run(max_steps=1) or run(max_steps=2..3) (so the fault may follow completed steps of the same call); in 30% of runs the resumed stepper and its fresh twin are alive together and advanced alternately, one event each. Later additions: hand-written Nop barriers between a user call and a later persistent write, the exception kept in a 'last error' slot and released inside a later step, warnings-as-errors around the faulted operation.",
    note="Interpreter schedules are a fixed function of (run seed, site, iteration) so the dry-run twin, the faulted stepper and the fresh stepper see the same schedule. X3/X4 are skipped (counted) when the fault-free step is ill-defined. Which phase is current after the fault is deliberately not a C11 matter (C01 checks the step protocol)."),
 })
 
@@ -35,21 +35,21 @@ CLAIMED.update({
    note="Guard flags of hand-written phases are not assigned inside the phase (static valuation); builder-made loop bounds that cannot be evaluated statically get a fixed value per distinct expression on both sides of the comparison."),
  "C16": dict(engine="E-sched", level="exploration", design_ref="DESIGN.md §4 E-sched / C16",
    technique="deterministic simulation: the two fused methods are two parties on one store; the simulator owns their interleaving (linear extensions of the fused graph), the renaming predicate and the initial store; structural invariants at fuse time and per-origin equivalence with solo runs",
-   text="Pairs of seeded builder programs with overlapping temporaries, statement ids, loop counters and condition flags, shared read-only state and disjoint persistent writes are fused by the real fuse_two_dags (default predicate, a drawn subset predicate, or rename-nothing); agreement checks (initial phase, default transitions, one-sided phases) and structure (unique ids, dependency edges mapped one-to-one, exactly the requested names renamed, persistent names untouched by default, verify_code accepts) are checked, then 3..24 interleavings x 1..2 stores are executed through the real interpreter callbacks and each method's persistent results and events must equal its solo run. Histories: hand-written id families and permuted storage for either method, an earlier fusion of the same two description objects under another predicate, a structural snapshot of both inputs (fusion must leave them as they were), and a fusion of the fused pair with a third method on either side (structural invariants).",
+   text="Pairs of seeded builder programs with overlapping temporaries, statement ids, loop counters and condition flags, shared read-only state and disjoint persistent writes are fused by the real fuse_two_dags (default predicate, a drawn subset predicate, or rename-nothing); agreement checks (initial phase, default transitions, one-sided phases) and structure (unique ids, dependency edges mapped one-to-one, exactly the requested names renamed, persistent names untouched by default, verify_code accepts) are checked, then 3..24 interleavings x 1..2 stores are executed through the real interpreter callbacks and each method's persistent results and events must equal its solo run. Histories: hand-written id families and permuted storage for either method, an earlier fusion of the same two description objects under another predicate, a structural snapshot of both inputs (fusion must leave them as they were), and a fusion of the fused pair with a third method on either side (structural invariants). Later additions: implicit solves (executed by a simulated solver), attribute lookups with temporaries named like the attributes, methods used before fusion, one-sided phases whose record name differs from their key, statement classes compiled without asserts (python -O), and the order in which fusion walks the clashing names (owned by the simulator); persistence of a name is classified by the engine itself.",
    note="Execution equivalence is checked for the default predicate only (a custom predicate may legitimately share temporaries). Origin of fused statements is taken from list position (first method's statements come first)."),
 })
 
 CLAIMED.update({
  "C13": dict(engine="E-name", level="exploration", design_ref="DESIGN.md §4 E-name / C13",
    technique="deterministic simulation of lookup histories: seeded operation sequences against the real name managers, model of an injective, stable, legal mapping checked after every operation, compiler probes",
-   text="Seeded adversarial name pools (punctuation/case twins, names equal to generated identifiers, tagged names, empty-after-sanitising names, 60..200 character names and long twins) and seeded histories of 5..60 operations (lookups through every entry point, repeated lookups, clear_locals, unique-name requests, refcount names, is_known queries) against the real PythonNameManager and FortranNameManager; after every operation a model checks legality (N1), pairwise distinctness of live identifiers, case-folded for Fortran (N2), distinctness from reserved identifiers (N3), stability (N4) and storage class by an independent persistent-name classification (N5). Every 8th quick run and every thorough run hands all live identifiers to compile() / gfortran -fsyntax-only. Those runs also push pool names (as loop variable and as a temporary of the loop body) through the real Python generator end to end; the generated class must yield the closed-form result.",
+   text="Seeded adversarial name pools (punctuation/case twins, names equal to generated identifiers, tagged names, empty-after-sanitising names, 60..200 character names and long twins) and seeded histories of 5..60 operations (lookups through every entry point, repeated lookups, clear_locals, unique-name requests, refcount names, is_known queries) against the real PythonNameManager and FortranNameManager; after every operation a model checks legality (N1), pairwise distinctness of live identifiers, case-folded for Fortran (N2), distinctness from reserved identifiers (N3), stability (N4) and storage class by an independent persistent-name classification (N5). Every 8th quick run and every thorough run hands all live identifiers to compile() / gfortran -fsyntax-only. Those runs also push pool names (as loop variable and as a temporary of the loop body) through the real Python generator end to end; the generated class must yield the closed-form result. Later additions: a two-phase Python probe with names that compete for one identifier, a Fortran probe that generates, compiles and runs a module (names spelled like handed-out identifiers, names carrying the printers' private marker, a generator with extra_arguments).",
    note="The only simulator-owned dimension is the operation history (no fault beyond reordering/repetition). FortranNameManager.name_function is not used by the generator, so it is exercised for distinctness/legality but not against the reserved list. User names never start with dagrt_ (documented as reserved)."),
 })
 
 CLAIMED.update({
  "C03": dict(engine="E-fort", level="exploration", design_ref="DESIGN.md §4 E-fort / C03",
    technique="deterministic simulation: seeded run-call histories against the real compiled Fortran module under a generated driver, state after every call compared with the real interpreter (refinement)",
-   text="Seeded Fortran-subset builder programs (user-type vectors with registered right-hand sides and CallCode templates, real scalars, arrays, loops, guarded blocks, conditional expressions, built-ins, 1..3 phases with guarded fail/switch/restart/raise) go through the whole real Fortran generator and gfortran; a generated driver initialises the seeded state, performs 1..8 run calls and prints next phase, <t>, <dt>, every persistent variable and the returned state/time/time-id after each call; each block is compared with the real interpreter after the corresponding step (failed and switched steps included; a Raise must stop the program at the same call). A compiler diagnostic or a generator exception on a program whose kinds can be inferred is a violation. The workload includes twin phases (same statements and local names in two phases), right-hand-side calls nested in expressions, a two-result user function, keyword arguments in either order, long names, chains of whole-array assignments, integer-kinded terms meeting real terms, and (20% of runs) an earlier generator object that was given the very same description objects.",
+   text="Seeded Fortran-subset builder programs (user-type vectors with registered right-hand sides and CallCode templates, real scalars, arrays, loops, guarded blocks, conditional expressions, built-ins, 1..3 phases with guarded fail/switch/restart/raise) go through the whole real Fortran generator and gfortran; a generated driver initialises the seeded state, performs 1..8 run calls and prints next phase, <t>, <dt>, every persistent variable and the returned state/time/time-id after each call; each block is compared with the real interpreter after the corresponding step (failed and switched steps included; a Raise must stop the program at the same call). A compiler diagnostic or a generator exception on a program whose kinds can be inferred is a violation. The workload includes twin phases (same statements and local names in two phases), right-hand-side calls nested in expressions, a two-result user function, keyword arguments in either order, long names, chains of whole-array assignments, integer-kinded terms meeting real terms, and (20% of runs) an earlier generator object that was given the very same description objects. Later additions: a NaN persistent scalar and comparisons with it, compound call arguments, a name that is scalar in one phase and array in another, a (scalar, user type) result function, 17-digit constants against run-time values, order-sensitive two-loop statements, the instrumented generator variant; compiled programs run with address-space randomisation off.",
    note="gfortran 12 at -O0; floats compared with relative tolerance 1e-12; guards only compare exactly computed scalars so they cannot flip between back ends; programs whose kinds cannot be inferred are outside the subset (discarded and counted, ~8%)."),
  "C12": dict(engine="E-fort", level="exploration", design_ref="DESIGN.md §4 E-fort / C12",
    technique="deterministic simulation with memory-fault detection: seeded sequences of completed/failed/switched run calls followed by shutdown against the real module built with AddressSanitizer/LeakSanitizer/UBSan",
@@ -60,11 +60,11 @@ CLAIMED.update({
 CLAIMED.update({
  "C14": dict(engine="E-det", level="exploration", design_ref="DESIGN.md §4 E-det / C14",
    technique="deterministic simulation: kind updates delivered to the real SymbolKindTable in seeded orders with duplicates (reordering/duplication faults), unify() in both argument orders and groupings, and the real SymbolKindFinder on permuted presentations in worker processes started under different PYTHONHASHSEED; convergence / equality oracles",
-   text="Update level (every run, in process): a drawn multiset of set(phase, name, kind) messages over the eight-kind universe is delivered to a real SymbolKindTable in 2..6 drawn orders with duplicates; where no explored order hits a failing unification the final tables must be identical, and a failure in some orders but not others is itself a violation. unify() is called on drawn pairs (both orders, idempotence, None neutral) and triples (all six orders x both groupings). Program level (every second run, worker subprocesses): a Fortran-subset or kind-adversarial program is presented to the real SymbolKindFinder as written and in 2..4 drawn permutations of statements and phases under hash seed 0 and one drawn seed; outcome class and table contents must be identical. Presentations also vary the entry point (SymbolKindFinder directly, one-shot phase iterables, the public infer_kinds on a DAGCode), statement ids that repeat across phases, and a phase without statements at a drawn position.",
+   text="Update level (every run, in process): a drawn multiset of set(phase, name, kind) messages over the eight-kind universe is delivered to a real SymbolKindTable in 2..6 drawn orders with duplicates; where no explored order hits a failing unification the final tables must be identical, and a failure in some orders but not others is itself a violation. unify() is called on drawn pairs (both orders, idempotence, None neutral) and triples (all six orders x both groupings). Program level (every second run, worker subprocesses): a Fortran-subset or kind-adversarial program is presented to the real SymbolKindFinder as written and in 2..4 drawn permutations of statements and phases under hash seed 0 and one drawn seed; outcome class and table contents must be identical. Presentations also vary the entry point (SymbolKindFinder directly, one-shot phase iterables, the public infer_kinds on a DAGCode), statement ids that repeat across phases, and a phase without statements at a drawn position. Later additions: long chains of provisionally known sums, calls whose result kind follows the argument's, dot_product targets, a finder object that was used before, idempotence for equal kinds that are distinct objects.",
    note="Conflicting message sets (every explored order hits a failing unification) are an ill-kinded program: unification failures are printed and ignored by design, so only 'consistent failure' is required there. The kind universe is finite (64 ordered pairs); the evidence file reports how many distinct pairs/triples this run actually met."),
  "C15": dict(engine="E-det", level="exploration", design_ref="DESIGN.md §4 E-det / C15",
    technique="deterministic simulation of process configuration and history: worker subprocesses started with drawn PYTHONHASHSEED, drawn container orders and a drawn history of earlier generator invocations; byte-equality of generated text and interpreter event log against a canonical worker",
-   text="For a seeded builder program (Python generator, interpreter) and a seeded Fortran-subset program (Fortran generator) a canonical worker (PYTHONHASHSEED=0, builder order, no history) and 2..3 workers with drawn hash seeds, drawn statement-list / dependency-set / phase-dict orders and a drawn history of 0..3 earlier invocations in the same process (other programs through fresh generators, a Fortran generator that raises half-way, type constructions advancing the global index-variable counter, interpreter runs) produce Python text, Fortran text and the interpreter's 3-step event log; each must equal the canonical answer byte for byte. Jobs carry only tape slices and integers, so replays re-create every worker exactly. History kinds also include earlier generators / an interpreter that were given the very same description objects (same-objects:py, py_plain, interp, interp_shared, fortran), and the canonical worker itself regenerates the same method after another one.",
+   text="For a seeded builder program (Python generator, interpreter) and a seeded Fortran-subset program (Fortran generator) a canonical worker (PYTHONHASHSEED=0, builder order, no history) and 2..3 workers with drawn hash seeds, drawn statement-list / dependency-set / phase-dict orders and a drawn history of 0..3 earlier invocations in the same process (other programs through fresh generators, a Fortran generator that raises half-way, type constructions advancing the global index-variable counter, interpreter runs) produce Python text, Fortran text and the interpreter's 3-step event log; each must equal the canonical answer byte for byte. Jobs carry only tape slices and integers, so replays re-create every worker exactly. History kinds also include earlier generators / an interpreter that were given the very same description objects (same-objects:py, py_plain, interp, interp_shared, fortran), and the canonical worker itself regenerates the same method after another one. Later additions: persistent names that differ in case only, user types that name their own index variables (made once per worker), instrumentation and state-update hooks as generator configuration.",
    note="Python text: dag.phases insertion order is kept fixed (the generator emits phases in that order and the property does not list it). User types use explicit index_vars. Interpreter logs are compared only when the reference stepper finds the first three steps well defined."),
 })
 
